@@ -186,7 +186,25 @@ def constructor_default(relpath, clsname, attr):
     try:
         fn = function(relpath, clsname + '.__init__').node
     except AnchorLost:
-        return None
+        fn = None
+    found = _literal_assignment(fn, attr) if fn is not None else None
+    if found is None:
+        # not initialised by __init__ itself: the first literal assignment in another method of the class that __init__
+        # (or the class's set-up code) relies on -- e.g. a field that a (re)initialisation method resets
+        src, tree = parse_file(relpath)
+        try:
+            cls = find_def(tree, clsname)
+        except AnchorLost:
+            return None
+        for item in cls.body:
+            if isinstance(item, (ast.FunctionDef, ast.AsyncFunctionDef)) and item.name != '__init__':
+                found = _literal_assignment(item, attr, only_none_or_empty=True)
+                if found is not None:
+                    break
+    return found
+
+
+def _literal_assignment(fn, attr, only_none_or_empty=False):
     found = None
     for n in ast.walk(fn):
         if isinstance(n, (ast.Assign, ast.AnnAssign)):
@@ -203,4 +221,6 @@ def constructor_default(relpath, clsname, attr):
                             found = ('found', ast.literal_eval(v))
                         except Exception:
                             return None
+                    if only_none_or_empty and found[1] not in (None, [], {}, set(), '', 0, False):
+                        found = None
     return found
